@@ -20,6 +20,10 @@ struct sl_rec { // one listener
     int cb_destroyed = 0;
     bool waiting = false; // model
     size_t expect_n = 0;  // model: number of values it must have by now
+    // "pausing" coroutine listener: after its first value it waits for something else (a gate) while KEEPING its emitter object, and
+    // re-awaits the emitter only when the gate opens. While it is away it is not a waiting listener.
+    bool pausing = false, away = false;
+    std::unique_ptr<cocls::future<void>> gate; std::optional<cocls::promise<void>> gate_prom;
 };
 inline cocls::async<void> sl_listener(cocls::signal<int>::emitter em, sl_rec &rec) {
     try {
@@ -28,6 +32,16 @@ inline cocls::async<void> sl_listener(cocls::signal<int>::emitter em, sl_rec &re
             rec.vals.push_back(v);
             rec.addrs.push_back(&v);
         } while (rec.forever);
+    } catch (const cocls::await_canceled_exception &) { rec.canceled++; }
+    rec.finished++;
+}
+inline cocls::async<void> sl_listener_pausing(cocls::signal<int>::emitter em, sl_rec &rec) {
+    try {
+        int &v = co_await em;
+        rec.vals.push_back(v); rec.addrs.push_back(&v);
+        bool hv = co_await rec.gate->has_value(); // away; the emitter object stays alive in this frame
+        (void)hv;
+        for (;;) { int &w = co_await em; rec.vals.push_back(w); rec.addrs.push_back(&w); }
     } catch (const cocls::await_canceled_exception &) { rec.canceled++; }
     rec.finished++;
 }
@@ -72,6 +86,7 @@ inline std::string run_signal_history(vf::rng &r, std::string &trace, int &ops) 
         for (auto &l : L) if (l.waiting) {
             l.expect_n++;
             if (l.kind == 0 && !l.forever) l.waiting = false;
+            if (l.kind == 0 && l.pausing && !l.away && l.gate_prom) { l.waiting = false; l.away = true; }
             if (l.kind == 1 && l.cb_limit >= 0 && (int)l.expect_n >= l.cb_limit) l.waiting = false;
         }
         size_t before[64]; for (size_t i = 0; i < L.size() && i < 64; i++) before[i] = L[i].vals.size();
@@ -99,8 +114,11 @@ inline std::string run_signal_history(vf::rng &r, std::string &trace, int &ops) 
         if (x < 25 && L.size() < 12) { // coroutine listener
             L.emplace_back(); sl_rec &l = L.back();
             l.kind = 0; l.forever = r.chance(3, 4);
-            trace += l.forever ? "listen " : "listen-once ";
-            if (use_void) sl_listener_void(connected ? vsig->get_emitter() : dead_vem, l).detach(); else sl_listener(connected ? sig->get_emitter() : dead_em, l).detach();
+            l.pausing = !use_void && connected && r.chance(1, 4);
+            if (l.pausing) { l.forever = true; l.gate = std::make_unique<cocls::future<void>>(); l.gate_prom.emplace(l.gate->get_promise()); }
+            trace += l.pausing ? "listen-pausing " : l.forever ? "listen " : "listen-once ";
+            if (l.pausing) sl_listener_pausing(sig->get_emitter(), l).detach();
+            else if (use_void) sl_listener_void(connected ? vsig->get_emitter() : dead_vem, l).detach(); else sl_listener(connected ? sig->get_emitter() : dead_em, l).detach();
             if (connected) { l.waiting = true; if (l.finished) err = "listener finished before any signal"; }
             else { if (l.canceled != 1 || !l.finished) err = "awaiting a disconnected emitter did not fail immediately with await_canceled_exception"; }
         } else if (x < 38 && L.size() < 12 && connected) { // callback listener
@@ -110,6 +128,15 @@ inline std::string run_signal_history(vf::rng &r, std::string &trace, int &ops) 
             sl_rec *lp = &l;
             if (use_void) vsig->connect([lp, g = sl_cb_guard(lp)]() { lp->vals.push_back(0); return lp->cb_limit < 0 || (int)lp->vals.size() < lp->cb_limit; });
             else sig->connect([lp, g = sl_cb_guard(lp)](int &v) { lp->vals.push_back(v); lp->addrs.push_back(&v); return lp->cb_limit < 0 || (int)lp->vals.size() < lp->cb_limit; });
+        } else if (x >= 77 && x < 80) { // an away listener comes back and awaits its emitter again
+            for (auto &l : L) if (l.away && l.gate_prom) {
+                trace += "listener-returns ";
+                (*l.gate_prom)(); l.gate_prom.reset(); l.away = false;
+                if (connected) l.waiting = true;
+                else if (l.canceled != 1 || !l.finished) err = "a listener that came back and awaited the DISCONNECTED emitter was not failed immediately with await_canceled_exception";
+                break;
+            }
+            check_all("listener-returns");
         } else if (x < 80 && connected) emit((int)r.below(3));
         else if (x < 86 && connected && !use_void && !col2) { trace += "collector-copy "; col2.emplace(*col); }
         else if (x < 90 && connected && !use_void && col2) { trace += "signal-from-collector "; cocls::signal<int> s2 = *col2; (void)s2; }
@@ -138,6 +165,7 @@ inline std::string run_signal_history(vf::rng &r, std::string &trace, int &ops) 
         }
         check_all("final disconnect");
     }
+    for (auto &l : L) if (l.away && l.gate_prom) { (*l.gate_prom)(); l.gate_prom.reset(); l.away = false; if (err.empty() && (l.canceled != 1 || !l.finished)) err = "a listener that came back after the disconnect was not failed immediately"; }
     for (size_t i = 0; i < L.size() && err.empty(); i++) {
         if (L[i].kind == 0 && !L[i].finished) err = "a coroutine listener never finished";
         if (L[i].kind == 0 && L[i].finished > 1) err = "a coroutine listener finished twice";
